@@ -428,7 +428,15 @@ func (g *dynCompiler) call(v *ast.CallExpr) string {
 				return "verifHas(" + arg(0) + ", " + arg(1) + ")"
 			}
 			return g.fail("has: arity")
-		case "isfresh", "samearray", "alias", "lastresult", "lastresultb", "lastarg", "callarg", "ufi", "uf", "ufb", "called", "calledinloop", "in", "forall2", "trig", "atrig":
+		case "called":
+			// calls of a function-valued field are observable: Fill installs counting no-op callbacks
+			if len(v.Args) == 1 {
+				if lit, ok := v.Args[0].(*ast.BasicLit); ok && strings.HasPrefix(strings.Trim(lit.Value, "\""), "field:") {
+					return "vb.Called(\"" + strings.TrimPrefix(strings.Trim(lit.Value, "\""), "field:") + "\")"
+				}
+			}
+			return g.fail("clause uses called on a function or method (not observable without instrumentation)")
+		case "isfresh", "samearray", "alias", "lastresult", "lastresultb", "lastarg", "callarg", "ufi", "uf", "ufb", "calledinloop", "in", "forall2", "trig", "atrig":
 			return g.fail("clause uses " + id.Name + " (not executable)")
 		}
 		if sf := findSpecIn(g.eng, g.pc, id.Name, ""); sf != nil {
